@@ -234,15 +234,22 @@ def pair_task(arg):
         t.eq_relation = rel_obj(ri)
         return t
 
-    for ra, mode in [(ra, mode) for ra in range(len(RELS)) for mode in ("natural", "copy+eq_relation")]:
-        o = observe(build_operand if mode == "natural" else derived_operand, a, ra)
+    def tuple_operand(content, ri):
+        """starts and ends given as tuples with force_no_dup_check=True (the set may keep the caller's own sequences)"""
+        return SpanSet(tuple(s_ for s_, _ in content), tuple(e_ for _, e_ in content), force_no_dup_check=True,
+                       eq_relation=rel_obj(ri))
+
+    builders = {"natural": build_operand, "copy+eq_relation": derived_operand, "tuples+force_no_dup_check": tuple_operand}
+    for ra, mode in [(ra, mode) for ra in range(len(RELS)) for mode in builders]:
+        o = observe(builders[mode], a, ra)
         if o[0] != "ok" or not holds(o[1], a):
             continue
         A = o[1]
         stats["operand_modes"] = stats.get("operand_modes", 0) + 1
         for b, rb, B in bs:
             def emit(op, kind, text, a=a, ra=ra, b=b, rb=rb, mode=mode):
-                how = "" if mode == "natural" else (
+                how = "" if mode == "natural" else "; A built from tuples of starts / ends with force_no_dup_check=True" \
+                    if mode.startswith("tuples") else (
                     "; A obtained as: S = <A's spans with relation %s>; [x in S for x in all spans]; A = S.copy(); "
                     "A.eq_relation = %s()" % (RELS[(ra + 1) % len(RELS)][0], RELS[ra][2]))
                 r.violation({"spec": "SpanSet", "part": "operator", "op": op, "kind": kind},
